@@ -78,7 +78,11 @@ Classes ==
   \o <<[f |-> "none", d |-> "s2c", tgt |-> "deadline", reg |-> "none", n |-> 0],
   \* fault-free: the client is handed the same packet value again (p1, p1, p2, p1, p3, p3; p2 was first sent on
   \* another connection)
-       [f |-> "none", d |-> "c2s", tgt |-> "resend", reg |-> "none", n |-> 0]>>
+       [f |-> "none", d |-> "c2s", tgt |-> "resend", reg |-> "none", n |-> 0],
+  \* fault-free: ONE server identity for several connections of the same process: `prior` complete connections before
+  \* this one (step Hs), and after the orderly end the server drops the connection and the client's own reconnect
+  \* (step End, `reconnect`) must yield a connection whose handshake is verified like every other
+       [f |-> "none", d |-> "s2c", tgt |-> "reuse", reg |-> "none", n |-> 0]>>
 NCls == Len(Classes)
 DialMs == 300
 WaitUntilMs == 450
@@ -156,7 +160,7 @@ Do(m) ==
   CASE m.k = "Hs" ->
          /\ Handshake(EdPubFromSeed(ServerSeedOf(plan.id)), ClientSeedOf(plan.id), ParamsOf(plan.id))
          /\ must' = (IF Targets("c2s", 0) THEN FaultMoves ELSE <<>>)
-         /\ UNCHANGED <<todo, budget, arr>> /\ Log(m @@ [dial |-> IF plan.c.tgt = "deadline" THEN DialMs ELSE 0])
+         /\ UNCHANGED <<todo, budget, arr>> /\ Log(m @@ [dial |-> IF plan.c.tgt = "deadline" THEN DialMs ELSE 0, prior |-> IF plan.c.tgt = "reuse" THEN 2 ELSE 0])
     [] m.k = "Wait" ->                                    \* until the dial deadline is well past
          /\ TimePasses /\ must' = Tail(must)
          /\ UNCHANGED <<todo, budget, arr>> /\ Log(m @@ [until |-> WaitUntilMs])
@@ -253,7 +257,7 @@ Next ==
      ELSE IF ~eof["s2c"] THEN Do([k |-> "Trunc", d |-> "s2c"]) /\ UNCHANGED done    \* orderly close by the server
      ELSE /\ done' = TRUE
           /\ UNCHANGED <<hs, cp, sp, wire, buf, txoff, rxoff, sent, delivered, dead, eof, got, units, hit, todo, must, budget, arr>>
-          /\ Log([k |-> "End"])
+          /\ Log([k |-> "End", reconnect |-> plan.c.tgt = "reuse"])
 Spec == Init /\ [][Next]_gvars
 
 \* ------------------------------------------------------------------- emission
